@@ -5,6 +5,14 @@ Everything is phrased with `List.count`, so that pool bookkeeping becomes linear
 import YouVerif.C18.Model
 namespace YouVerif.C18
 
+theorem schedOneFast_eq (s : State) (h : Header) : schedOneFast s h = schedOne s h := by
+  simp only [schedOneFast, schedOne, addTask]
+  congr 1
+  funext k
+  cases k with
+  | body => simp
+  | rcpt => cases s.cfg.fast <;> simp
+
 /-! ### cache -/
 
 theorem cget_cerase (c : Cache) (n m : Nat) : cget (cerase c n) m = if m = n then none else cget c m := by
